@@ -85,6 +85,13 @@ def cases(tier, seed):
         out.append({"desc": d, "cli": mi % 5 == 0 or big, "w": 20 if big else nlev})
         if nlev >= 2 and not big and mi % 4 == 1:
             out.append({"desc": d, "poison_covered": True, "w": 1})
+    # level directories named otherwise than Level_k
+    m_ = scope.named_meshes(3)[2]
+    d = dict(m_)
+    d.update(geos[seed % 2])
+    d.update({"fields": ["temp", "volFrac", "density"], "payload": ["pos", "frac", "signed"], "levelprefix": "Lev_",
+              "layout": [scope.layouts(len(b), 'idrev')[-1] for b in m_["levels"]], "seed": seed})
+    out.append({"desc": d, "cli": True, "w": 10})
     # 27 + 20 boxes scattered over five / three files
     d = dict(scope.many_box_mesh())
     d.update(geos[(seed + 1) % 2])
